@@ -15,7 +15,7 @@ from common import Report, pick_samples, log
 from farm import Farm, Case
 from genlib import gen_request, generate, DEFAULT_OPTS
 
-NAMED = ["Int", "Float", "String", "Boolean", "ID", "Date", "Role", "Range", "Filter", "Pick", "search_input"]
+NAMED = ["Int", "Float", "String", "Boolean", "ID", "Date", "Role", "Range", "Filter", "Pick", "search_input", "Solo"]
 LEAVES = {
     "Int": [1, 0, -2147483648, 2147483647], "Float": [1.5, 0.0, -1e300], "String": ["s", "", "é\"\n"],
     "Boolean": [True, False], "ID": ["x", "", "007"], "Date": ["2020-01-01"], "date_time": ["t"],
@@ -373,7 +373,7 @@ def run(tier):
     cov = {
         "evaluations": n_assign + n_forbidden, "distinct_nontrivial": n_distinct, "forbidden_assignments": n_forbidden,
         "rule": "operations: one per named input type {Int, Float, String, Boolean, ID, custom scalar, enum, input object, "
-                "recursive input object, @oneOf input} declaring a variable for every type expression of list depth <= %d, "
+                "recursive input object, @oneOf input, @oneOf input with a single member} declaring a variable for every type expression of list depth <= %d, "
                 "plus special variable names (camelCase, keywords, leading underscore, SCREAMING) and an operation without "
                 "variables; x skip_serializing_none {off, on} x normalization {none, rust}; assignments = every choice vector "
                 "(null / value at each nullable member, list lengths 1/0/2, scalar boundary values, each enum value, each @oneOf "
